@@ -105,6 +105,13 @@ def judge_traces(ctx, traces):
         raise MachineryError("no symbolic operators exported for TLC")
     verdicts = {}
     B = 4000
+    # binding demonstration: a copy of a recorded operator whose input terms carry one changed coefficient must not denote them
+    import copy
+    donor = next((t for t in traces if t["terms"] and any(w for w in t["terms"][0][0])), traces[0])
+    bad = copy.deepcopy(donor)
+    bad["id"] = "corrupted-copy"
+    bad["terms"][0][1] = bad["terms"][0][1] + 1
+    traces = list(traces) + [bad]
     for k in range(0, len(traces), B):
         batch = traces[k:k + B]
         with tempfile.NamedTemporaryFile("w", suffix=".json", delete=False) as fh:
@@ -120,6 +127,10 @@ def judge_traces(ctx, traces):
             raise MachineryError(f"TLC returned {len(r['verdicts'])} verdicts for {len(batch)} traces")
         for v in r["verdicts"]:
             verdicts[v["id"]] = v
+    cv = verdicts.pop("corrupted-copy", None)
+    if cv is None or (cv["wellformed"] and cv["denotes"]):
+        raise MachineryError("binding demonstration failed: SymbolicMpoTrace accepted a recorded operator against changed input terms")
+    ctx.notes["binding_demonstration"] = "corrupted copy (one input coefficient + 1) rejected by SymbolicMpoTrace"
     return verdicts
 
 
